@@ -10,7 +10,7 @@ from vlib import fbits, bitsf
 
 LEVEL_TEXT = ('Lean 4 theorems about the executable model of fourier.dft2/idft2 instantiated at ℂ/ℝ; the model is proved equal to the wiring regenerated from fourier.py on every run (centring, which offset/shift/sampling feeds which matrix factor, .T, product order, unitary factor, idft2 plumbing); for all shapes, real '
               'samplings α_r ≠ α_c, real shifts, integer offsets and both flags: the triple product equals the defining double sum '
-              'with factor √|α_r α_c| exactly when unitary; linearity; zero-padded embedding = sub-array with offset; shift = input phase ramp; on a full period (α = 1/m, 1/n, equal shapes, same flag) '
+              'with factor √|α_r α_c| exactly when unitary; linearity; zero-padded embedding = sub-array with offset; shift = input phase ramp; idft2 equals its own defining sum (any sampling, shape, shift, both flags); on a full or oversampled period (α = 1/K, K ≥ m, same flag) '
               'idft2 ∘ dft2 = id, and under the unitary flag dft2 and idft2 conserve Σ|·|² (roots-of-unity orthogonality). The '
               'same model definitions are run at complex doubles against the real functions on every check.')
 LEVEL_NOTE = ('Trusted: Lean kernel + Mathlib; that np.dot/np.outer/np.exp compute the sums/products/exponentials the hand model '
@@ -21,7 +21,7 @@ GEN = ['FourierWiring']
 OPS = ['C01']
 RULE = ('cases: dft2 / idft2 with input and output shapes drawn independently from 1..7 (thorough 1..12 with a 5 % tail up to 16; forced 1x1, single row/column, '
         'even/odd, non-square), complex Gaussian data, per-axis α drawn independently from {1/n_in, 1/n_out, random in ±(0.01,0.6)}, '
-        'real shifts in [-3,3], integer offsets in [-9,9], both flags, scalar / pair / default forms of alpha, shape, shift, offset, complex / float / int64 input, with and without out= (incl. a real buffer that must be refused), the call made on the caller\'s own array, bursts of repeated shapes with fresh '
+        'real shifts in [-3,3], integer offsets in [-9,9], both flags, scalar / pair / default forms of alpha, shape, shift, offset, complex / float / int64 input, with and without out= (incl. a real buffer that must be refused), the call made on the caller\'s own array, full and oversampled round trips, C / Fortran / strided / read-only inputs, out= buffers NumPy may refuse (Fortran-ordered, strided, complex64, wrong shape: an exception or the right values, never silently something else), bursts of repeated shapes with fresh '
         'offsets (coordinate cache); plus full-period round trips. distinct = (kind, shapes, α class per axis, shift/offset zero-ness, '
         'flags) signature with values; non-trivial = outside the region the test-suite samples (square α = 1/n isotropic, zero '
         'shift and offset, fresh allocation) A ≈5 % sample (search tier: a leading block of 260 + a >32-key cache-churn sequence) comes from an extremes stream: samplings within 3e-5 … one ulp of 1/n on centred same-shape transforms, in-place out=f, 1-D-like arrays of up to 1025 rows (quick ≤ 100), data at 1e-150 … 1e150, int8…uint32 inputs at their limits, shifts within 1e-9 of integers, shifts to 1e3, offsets to ±1000, samplings 1e-9 … 10; all tolerances are relative to Σ|f|.')
@@ -30,7 +30,9 @@ TRUSTED = ['np.dot / np.outer / np.exp / np.conj / np.multiply(out=) compute the
            'functools.lru_cache on _dft2_coords returns the arrays it was given (history independence is only observed: bursts of '
            'repeated shapes in the generator)']
 UNPROVEN = ['out=: "writing into a caller-supplied buffer yields the same values" has no theorem (the functional model has no '
-            'buffers); it is checked on every generated out= case against a fresh allocation and against the model']
+            'buffers); it is checked on every generated out= case against a fresh allocation and against the model',
+            'inversion is claimed for zero shift and offset only (with a shift the round trip returns a rolled, phased copy: no theorem describes it); '
+            'Parseval holds for any shift and offset' ]
 ASSUMPTIONS = ['shapes are at least 1x1; α, shifts real; offsets integers; inversion/Parseval only claimed on a full period '
                '(α = 1/m, 1/n, output shape = input shape, zero shift/offset for the inversion) with the same flag on both sides']
 
@@ -74,9 +76,12 @@ def _case(rng, kmax, prev=None):
     re, im = _data(rng, shape)
     unitary = bool(rng.integers(0, 2))
     if kind == 'round':
-        return {'kind': 'round', 'shape': list(shape), 'oshape': list(shape), 're': re, 'im': im,
-                'alpha': [1.0 / shape[0], 1.0 / shape[1]], 'aclass': ['1/n', '1/n'], 'shift': [0.0, 0.0], 'offset': [0, 0],
-                'unitary': unitary, 'out': bool(rng.integers(0, 2))}
+        per = list(shape)
+        if rng.integers(0, 2):       # oversampled period: forward onto K x L >= shape, inverse back onto the input shape
+            per = [shape[0] + int(rng.integers(0, 4)), shape[1] + int(rng.integers(0, 4))]
+        return {'kind': 'round', 'shape': list(shape), 'oshape': list(shape), 're': re, 'im': im, 'period': per,
+                'alpha': [1.0 / per[0], 1.0 / per[1]], 'aclass': ['1/n', '1/n'], 'shift': [0.0, 0.0], 'offset': [0, 0],
+                'unitary': unitary, 'out': bool(rng.integers(0, 2)), 'layout': ['C', 'C', 'F', 'strided', 'readonly'][int(rng.integers(0, 5))]}
     ar, cr = _alpha(rng, shape[0], oshape[0]); ac, cl = _alpha(rng, shape[1], oshape[1])
     if rng.integers(0, 6) == 0:      # full period, so that Parseval is also evaluated on these kinds
         oshape = shape; ar, ac, cr, cl = 1.0 / shape[0], 1.0 / shape[1], '1/n', '1/n'; unitary = True
@@ -96,9 +101,10 @@ def _case(rng, kmax, prev=None):
     if kind == 'dft2' and offset[0] == offset[1] and rng.integers(0, 2): forms['offset'] = 'scalar'
     dtype = 'complex'
     if not any(im) and rng.integers(0, 2): dtype = 'int' if all(x == round(x) for x in re) else 'float'
-    outk = ['none', 'none', 'ok', 'ok', 'float'][int(rng.integers(0, 5))] if rng.integers(0, 2) else 'none'
+    outk = ['none', 'none', 'ok', 'ok', 'float', 'fortran', 'strided', 'complex64', 'wrongshape'][int(rng.integers(0, 9))] if rng.integers(0, 2) else 'none'
+    layout = ['C', 'C', 'C', 'F', 'strided', 'readonly'][int(rng.integers(0, 6))]
     return {'kind': kind, 'shape': list(shape), 'oshape': list(oshape), 're': re, 'im': im, 'alpha': [ar, ac], 'aclass': [cr, cl],
-            'shift': shift, 'offset': offset, 'unitary': unitary, 'out': outk == 'ok', 'out_kind': outk, 'forms': forms, 'dtype': dtype}
+            'shift': shift, 'offset': offset, 'unitary': unitary, 'out': outk == 'ok', 'out_kind': outk, 'forms': forms, 'dtype': dtype, 'layout': layout}
 
 def _blank(kind, shape, oshape, re, im, alpha, unitary, **kw):
     c = {'kind': kind, 'shape': list(shape), 'oshape': list(oshape), 're': re, 'im': im, 'alpha': list(alpha), 'aclass': ['free', 'free'],
@@ -179,7 +185,7 @@ def _full_period(c):
 def signature(c):
     z = lambda v: 'z' if v[0] == 0 and v[1] == 0 else 'nz'
     return (f"{c['kind']} {c['shape']}->{c['oshape']} a={c['alpha']} sh={c['shift']} off={c['offset']} "
-            f"u={int(c['unitary'])} out={c.get('out_kind', int(c['out']))} forms={sorted(c.get('forms', {}).items())} dt={c.get('dtype', 'complex')}")
+            f"u={int(c['unitary'])} out={c.get('out_kind', int(c['out']))} forms={sorted(c.get('forms', {}).items())} lay={c.get('layout')} per={c.get('period')} dt={c.get('dtype', 'complex')}")
 
 def nontrivial(c):
     sq = c['shape'][0] == c['shape'][1] and _full_period(c)
@@ -201,6 +207,9 @@ def tags(c):
     if max(c['shape'] + c['oshape']) > 64: t.append('rows>64')
     if max(c['shape'] + c['oshape']) > 256: t.append('rows>256')
     for k, v in c.get('forms', {}).items(): t.append(f'form:{k}={v}')
+    if c.get('layout', 'C') != 'C': t.append('layout:' + c['layout'])
+    if c.get('period', c['shape']) != c['shape']: t.append('oversampled-roundtrip')
+    if c.get('out_kind') in ('fortran', 'strided', 'complex64', 'wrongshape'): t.append('out=' + c['out_kind'])
     if c.get('dtype', 'complex') != 'complex': t.append('dtype:' + c['dtype'])
     if c.get('out_kind') == 'float': t.append('out=real-buffer')
     return t
@@ -260,6 +269,17 @@ def _call(fn, c, x, **kw):
         info.update({'same_obj': bool(r is y), 'out_diff': float(np.max(np.abs(np.asarray(r) - fresh))) if r.shape == fresh.shape else -1.0,
                      'buf_diff': float(np.max(np.abs(y - fresh))) if y.shape == fresh.shape else -1.0})
         fresh = r
+    elif ok in ('fortran', 'strided', 'complex64', 'wrongshape'):
+        # buffers NumPy may refuse: either an exception, or the right values in the buffer — never silently something else
+        M, N = c['oshape']
+        buf = {'fortran': lambda: np.zeros((M, N), dtype=complex, order='F'), 'strided': lambda: np.zeros((M, 2 * N), dtype=complex)[:, ::2],
+               'complex64': lambda: np.zeros((M, N), dtype=np.complex64), 'wrongshape': lambda: np.zeros((M + 1, N), dtype=complex)}[ok]()
+        try:
+            r = fn(x, out=buf, **kw)
+            info['exotic'] = {'raised': None, 'same_obj': bool(r is buf), 'dtype': str(buf.dtype),
+                              'diff': float(np.max(np.abs(np.asarray(r) - fresh))) if np.shape(r) == fresh.shape else -1.0}
+        except Exception as e:
+            info['exotic'] = {'raised': type(e).__name__}
     elif ok == 'float':
         buf = np.zeros(tuple(c['oshape']), dtype=float)
         try:
@@ -273,9 +293,20 @@ def _call(fn, c, x, **kw):
 def _input(c):
     f = _f(c)
     dt = c.get('dtype', 'complex')
-    if dt == 'float': return np.ascontiguousarray(f.real)
-    if dt == 'int': return np.ascontiguousarray(f.real).astype(np.int64)
-    if dt != 'complex': return np.ascontiguousarray(f.real).astype(dt)
+    if dt == 'float': return _layout(c, np.ascontiguousarray(f.real))
+    if dt == 'int': return _layout(c, np.ascontiguousarray(f.real).astype(np.int64))
+    if dt != 'complex': f = np.ascontiguousarray(f.real).astype(dt)
+    return _layout(c, f)
+
+def _layout(c, f):
+    """the same values in another memory layout: Fortran order, a strided view of a larger array, a read-only array"""
+    lay = c.get('layout', 'C')
+    if lay == 'F': return np.asfortranarray(f)
+    if lay == 'strided':
+        big = np.zeros((f.shape[0] * 2, f.shape[1] * 3), dtype=f.dtype); big[::2, ::3] = f
+        return big[::2, ::3]
+    if lay == 'readonly':
+        g = f.copy(); g.flags.writeable = False; return g
     return f
 
 def impl(c):
@@ -291,9 +322,11 @@ def impl(c):
         res = {'F': _pack(F), **info}
     else:
         f0 = f.copy()
-        F = LF.dft2(f, tuple(c['alpha']), unitary=c['unitary'])
+        per = c.get('period', c['shape'])
+        F = LF.dft2(f, tuple(c['alpha']), shape=tuple(per), unitary=c['unitary']) if per != c['shape'] else LF.dft2(f, tuple(c['alpha']), unitary=c['unitary'])
         F0 = F.copy()
-        g, info = _call(LF.idft2, c, F, alpha=tuple(c['alpha']), unitary=c['unitary'])
+        kw = {'shape': tuple(c['shape'])} if per != c['shape'] else {}
+        g, info = _call(LF.idft2, c, F, alpha=tuple(c['alpha']), unitary=c['unitary'], **kw)
         info['arg_untouched'] = bool(info['arg_untouched'] and np.array_equal(f, f0) and np.array_equal(F, F0))
         res = {'F': _pack(F0), 'g': _pack(g), **info}
     res['input_untouched'] = res.pop('arg_untouched')
@@ -304,7 +337,7 @@ def _arr_req(c):
 
 def requests(c, io):
     base = {**_arr_req(c), 'alpha': [fbits(a) for a in c['alpha']], 'unitary': c['unitary']}
-    if c['kind'] == 'round': return [{'op': 'c01.roundtrip', **base}]
+    if c['kind'] == 'round': return [{'op': 'c01.roundtrip', **base, 'period': c.get('period', c['shape'])}]
     base.update({'oshape': c['oshape'], 'shift': [fbits(s) for s in c['shift']]})
     if c['kind'] == 'dft2': return [{'op': 'c01.dft2', **base, 'offset': c['offset']}]
     return [{'op': 'c01.idft2', **base}]
@@ -360,6 +393,12 @@ def _dist(F, re, im):
 def oracle(c, io):
     f = _f(c); tol = _tol(c); k = c['kind']
     if not io.get('input_untouched', True): return 'the caller\'s input array was modified'
+    ex = io.get('exotic')
+    if ex is not None:
+        if ex['raised'] is None and c['out_kind'] == 'complex64': return 'a complex64 out= buffer was accepted: the complex128 result is silently truncated'
+        if ex['raised'] is None and c['out_kind'] == 'wrongshape': return 'an out= buffer of the wrong shape was accepted'
+        if ex['raised'] is None and not (ex['same_obj'] and 0 <= ex['diff'] <= 1e-12 * max(np.sum(np.abs(f)), 1e-300)):
+            return f"out= ({c['out_kind']} buffer) was accepted but does not hold the result of a fresh allocation (diff {ex['diff']:.3e})"
     if io.get('real_out') not in (None, 'TypeError'):
         return f"a real-valued out= buffer was not refused with TypeError ({io['real_out']}): the complex result cannot be stored in it"
     if c['out'] or c.get('out_kind') == 'alias':
@@ -370,7 +409,7 @@ def oracle(c, io):
     scale = np.sqrt(LD(abs(LD(a[0]) * LD(a[1]))))
     F = _unpack(io['F'])
     if k in ('dft2', 'round'):
-        re, im = ref_sum(f, a, c['oshape'], c['shift'], c['offset'], -1)
+        re, im = ref_sum(f, a, c.get('period', c['oshape']) if k == 'round' else c['oshape'], c['shift'], c['offset'], -1)
         if c['unitary']: re, im = re * scale, im * scale
         d = _dist(F, re, im)
         if not d <= tol: return f'dft2 differs from the defining sum by {d:.3e} (tol {tol:.1e})'
